@@ -3,11 +3,16 @@
     All statements are about model/Placeholder.v, generic in the literal tables [c : cfg]
     and instantiated on the tables regenerated from /repo ([gen_cfg], gen/GenC13.v).
     [d] ranges over ALL deck states, so every statement holds after any history of
-    operations; C13_history_order speaks about histories explicitly. *)
+    operations; C13_history_order speaks about histories explicitly.
+
+    The last section (C13_pkg_...) is about model/PlaceholderPkg.v: WHICH part every entry of the
+    slide list designates (object identity vs part name, the relationship table of the presentation
+    part, p:sldIdLst), over histories of additions, edits, deletions and saving / re-opening. *)
 From V.lib Require Import Prelude.
 From V.gen Require Import GenC13.
-From V.model Require Import Placeholder.
-From V.proofs Require Import Placeholder_proofs.
+From V.model Require Import Placeholder PlaceholderPkg.
+From V.model Require Ids PkgOps.
+From V.proofs Require Import Placeholder_proofs PlaceholderPkg_proofs.
 From Coq Require Import Permutation Sorted.
 
 (** ** the translator understood everything; the generated tables are well-formed *)
@@ -699,3 +704,173 @@ Example C13_placeholders_view_reorders :
      mk_shape 5%N [] (Some (mk_ph None (Some 13%N) None None)) None None true;
      mk_shape 6%N [] (Some (mk_ph None (Some 1%N) None None)) None None true]) = [3; 6; 2; 5]%N.
 Proof. vm_compute. reflexivity. Qed.
+
+(** * The slide list: which part every entry designates (model/PlaceholderPkg.v) *)
+
+(** every p:sldId of a well-formed presentation designates a slide part *)
+Theorem C13_pkg_resolves : forall ps i, pres_wf ps -> i < length (p_ids ps) ->
+  exists p sl, slide_at ps i = Ok (p, sl) /\ p < length (p_parts ps).
+Proof. exact pres_wf_resolves. Qed.
+Print Assumptions C13_pkg_resolves.
+
+(** the new slide is the LAST entry and designates a part that did not exist before, under a part name no
+    reachable part carries, through an rId and with a slide id that were not in use; every earlier entry
+    designates the same part with the same state; layouts, masters and notes master are untouched *)
+Theorem C13_pkg_add_slide_last_new : forall c ps l ps', pres_wf ps -> padd_slide c ps l = (ps', Ok tt) ->
+  exists L t name rid n,
+    nth_error (d_layouts (p_deck ps)) l = Some L /\ new_slide_tree c (l_shapes L) = (t, Ok tt) /\
+    ~ In name (reach_names ps) /\ ~ In rid (map PkgOps.rr_id (p_rels ps)) /\ ~ In n (map fst (p_ids ps)) /\
+    Ids.slide_id_valid n = true /\
+    p_ids ps' = p_ids ps ++ [(n, rid)] /\
+    p_parts ps' = p_parts ps ++ [mk_ppart name (Some (mk_slide l t None))] /\
+    p_rels ps' = p_rels ps ++ [PkgOps.mkR rid PkgOps.rt_slide (PkgOps.TInt (length (p_parts ps))) None] /\
+    p_deck ps' = p_deck ps /\ p_xrefs ps' = p_xrefs ps /\
+    slide_at ps' (length (p_ids ps)) = Ok (length (p_parts ps), mk_slide l t None) /\
+    (forall i, i < length (p_ids ps) -> slide_at ps' i = slide_at ps i) /\
+    (forall i p sl, slide_at ps i = Ok (p, sl) -> p <> length (p_parts ps)).
+Proof. exact padd_slide_ok. Qed.
+Print Assumptions C13_pkg_add_slide_last_new.
+
+(** a failed addition leaves the slide list alone *)
+Theorem C13_pkg_add_slide_failed : forall c ps l ps' e, pres_wf ps -> padd_slide c ps l = (ps', Err e) ->
+  p_ids ps' = p_ids ps /\ p_deck ps' = p_deck ps /\ forall i, slide_at ps' i = slide_at ps i.
+Proof. exact padd_slide_err. Qed.
+Print Assumptions C13_pkg_add_slide_failed.
+
+(** at package level add_slide IS Placeholder.add_slide on the deck the presentation shows: the theorems
+    about the new slide above (mirror, names, ids, inherited geometry) hold for it *)
+Theorem C13_pkg_add_slide_is_add_slide : forall c ps l ps', pres_wf ps -> padd_slide c ps l = (ps', Ok tt) ->
+  add_slide c (view ps) l = (view ps', Ok tt) /\ exists s, listed ps' = listed ps ++ [s].
+Proof. exact padd_slide_view. Qed.
+Print Assumptions C13_pkg_add_slide_is_add_slide.
+
+(** deleting slide i (drop_rel + p:sldId) or removing its p:sldId alone: the other entries designate the
+    same parts with the same states, in the same order *)
+Theorem C13_pkg_remove_frame : forall ps i ps', pres_wf ps -> premove ps i = (ps', Ok tt) ->
+  pres_wf ps' /\ p_ids ps' = remove_nth i (p_ids ps) /\ p_parts ps' = p_parts ps /\ p_deck ps' = p_deck ps /\
+  forall j, slide_at ps' j = slide_at ps (if j <? i then j else S j).
+Proof. exact premove_frame. Qed.
+Print Assumptions C13_pkg_remove_frame.
+
+Theorem C13_pkg_unlist_frame : forall ps i ps', pres_wf ps -> punlist ps i = (ps', Ok tt) ->
+  pres_wf ps' /\ p_ids ps' = remove_nth i (p_ids ps) /\ p_parts ps' = p_parts ps /\ p_rels ps' = p_rels ps /\
+  p_deck ps' = p_deck ps /\ forall j, slide_at ps' j = slide_at ps (if j <? i then j else S j).
+Proof. exact punlist_frame. Qed.
+Print Assumptions C13_pkg_unlist_frame.
+
+(** the only failure of a deletion is a position that does not exist, and then nothing changes *)
+Theorem C13_pkg_removal_errors : forall ps i e, pres_wf ps ->
+  (premove ps i = (ps, Err IndexErr) \/ exists ps', premove ps i = (ps', Ok tt)) /\
+  (punlist ps i = (ps, Err IndexErr) \/ exists ps', punlist ps i = (ps', Ok tt)) /\
+  (nth_error (p_ids ps) i = Some e -> exists ps', premove ps i = (ps', Ok tt)).
+Proof. exact removal_err. Qed.
+Print Assumptions C13_pkg_removal_errors.
+
+(** an edit aimed at position s acts on the part that position designates (its new state is the one
+    Placeholder.step computes for it); every other entry designates the same part with the same state *)
+Theorem C13_pkg_edit_frame : forall c ps s o ps' r, pres_wf ps -> on_slide c ps s o = (ps', r) ->
+  match slide_at ps s with
+  | Err e => ps' = ps /\ r = Err e
+  | Ok (p, sl) =>
+      exists d', step c (deck_for ps [sl]) (retarget o) = (d', r) /\
+        pres_wf ps' /\ p_ids ps' = p_ids ps /\
+        slide_at ps' s = Ok (p, match d_slides d' with x :: _ => x | [] => sl end) /\
+        (forall i, i <> s -> slide_at ps' i = slide_at ps i)
+  end.
+Proof. exact on_slide_spec. Qed.
+Print Assumptions C13_pkg_edit_frame.
+
+Theorem C13_pkg_deck_edit_frame : forall c ps o ps' r, pres_wf ps -> on_deck c ps o = (ps', r) ->
+  exists d', step c (deck_for ps []) o = (d', r) /\ pres_wf ps' /\ p_ids ps' = p_ids ps /\
+             forall i, slide_at ps' i = slide_at ps i.
+Proof. exact on_deck_spec. Qed.
+Print Assumptions C13_pkg_deck_edit_frame.
+
+(** ** ALL histories of one session (additions, edits, both deletion recipes, failures included) keep the
+       invariant: rIds distinct, no part related twice, slide ids distinct, every entry designates a slide
+       part, no part listed twice, no two reachable parts with the same name *)
+Theorem C13_pkg_step_invariant : forall c ps o ps' r,
+  pres_inv ps -> in_session o = true -> pstep c ps o = (ps', r) -> pres_inv ps'.
+Proof. exact pstep_inv. Qed.
+Print Assumptions C13_pkg_step_invariant.
+
+Theorem C13_pkg_history_invariant : forall c ops ps,
+  pres_inv ps -> forallb in_session ops = true -> pres_inv (pfinal c ps ops).
+Proof. exact history_inv. Qed.
+Print Assumptions C13_pkg_history_invariant.
+
+Theorem C13_pkg_history_distinct : forall c ops ps, pres_inv ps -> forallb in_session ops = true ->
+  let ps' := pfinal c ps ops in
+  NoDup (map fst (p_ids ps')) /\ NoDup (map snd (p_ids ps')) /\
+  (forall i j p, part_at ps' i = Ok p -> part_at ps' j = Ok p -> i = j) /\
+  (forall i, i < length (p_ids ps') -> exists p sl, slide_at ps' i = Ok (p, sl)).
+Proof. exact history_distinct. Qed.
+Print Assumptions C13_pkg_history_distinct.
+
+(** ** saving and re-opening: a presentation satisfying the invariant opens again with the same slide
+       list (same ids, every entry the same part state); when no related slide part is unlisted the
+       invariant holds again after the renaming of the first access of prs.slides *)
+Theorem C13_pkg_save_reopen : forall ps, pres_inv ps ->
+  exists ps', preopen ps = (ps', Ok tt) /\ pres_wf ps' /\ p_ids ps' = p_ids ps /\ p_deck ps' = p_deck ps /\
+    (forall i, slide_at ps' i = slide_at ps i) /\
+    (orphan_free ps -> pres_inv ps' /\ orphan_free ps').
+Proof. exact preopen_spec. Qed.
+Print Assumptions C13_pkg_save_reopen.
+
+(** after ANY history of one session the presentation can be saved without losing a slide *)
+Theorem C13_pkg_history_save : forall c ops ps, pres_inv ps -> forallb in_session ops = true ->
+  let ps1 := pfinal c ps ops in
+  clash_free ps1 /\
+  exists ps2, preopen ps1 = (ps2, Ok tt) /\ pres_wf ps2 /\ p_ids ps2 = p_ids ps1 /\ p_deck ps2 = p_deck ps1 /\
+              forall i, slide_at ps2 i = slide_at ps1 i.
+Proof. exact history_save. Qed.
+Print Assumptions C13_pkg_history_save.
+
+(** ** histories spanning sessions: as long as no step can leave a related slide part unlisted (calm_opb),
+       saving and re-opening any number of times keeps invariant and slide list *)
+Theorem C13_pkg_calm_step : forall c ps o ps' r,
+  good ps -> pstep c ps o = (ps', r) -> calm_opb ps o r = true -> good ps'.
+Proof. exact pstep_good. Qed.
+Print Assumptions C13_pkg_calm_step.
+
+Theorem C13_pkg_history_all_sessions : forall c ops ps,
+  good ps -> calm_run c ps ops = true -> good (pfinal c ps ops).
+Proof. exact history_good. Qed.
+Print Assumptions C13_pkg_history_all_sessions.
+
+(** non-vacuity: the three-slide presentation satisfies every hypothesis above, and a history with two
+    deletions, three additions, edits and two save / re-open steps is calm *)
+Example C13_pkg_example_good : good ex_pres.
+Proof. exact ex_pres_good. Qed.
+
+Example C13_pkg_example_history :
+  calm_run gen_cfg ex_pres ex_hist = true /\
+  let ps := pfinal gen_cfg ex_pres ex_hist in
+  map fst (p_ids ps) = [257; 259; 260]%Z /\ lparts ps = [Ok 2; Ok 4; Ok 5]%nat /\
+  map (name_of ps) [2; 4; 5]%nat = [Ids.slide_name 1; Ids.slide_name 2; Ids.slide_name 3] /\
+  clash_freeb ps = true.
+Proof. split; [exact ex_hist_calm|exact ex_hist_final]. Qed.
+
+(** the slide added after a deletion takes a name no reachable part carries (slide 4 while the unlisted
+    part keeps slide 1 and the third slide keeps slide 3) *)
+Example C13_pkg_example_session :
+  let ps := pfinal gen_cfg ex_pres [Unlist 0; Op (AddSlide 0); Remove 0; Op (AddSlide 0)] in
+  lparts ps = [Ok 3; Ok 4; Ok 5]%nat /\
+  map (name_of ps) [1; 3; 4; 5]%nat = [Ids.slide_name 1; Ids.slide_name 3; Ids.slide_name 4; Ids.slide_name 2] /\
+  clash_freeb ps = true.
+Proof. exact ex_session. Qed.
+
+(** the condition of C13_pkg_history_all_sessions cannot be dropped: once a related slide part is unlisted
+    (p:sldId removed, relationship kept) the renaming on the first access of prs.slides after re-opening can
+    give a listed part the name of the unlisted one; the next save then loses a LISTED slide (the one added
+    in the first session is replaced by the unlisted one).  This is the behaviour of python-pptx recorded
+    as unlisted-slide-partname-collision. *)
+Theorem C13_pkg_unlisted_collision_refuted :
+  good ex_pres /\ forallb in_session (removelast collide_hist) = true /\
+  calm_run gen_cfg ex_pres collide_hist = false /\
+  let ps := pfinal gen_cfg ex_pres collide_hist in
+  clash_freeb ps = false /\
+  exists p sl p' sl', slide_at ps 1 = Ok (p, sl) /\ sl_shapes sl <> [] /\
+    slide_at (fst (preopen ps)) 1 = Ok (p', sl') /\ sl_shapes sl' = [].
+Proof. exact unlisted_collision_witness. Qed.
+Print Assumptions C13_pkg_unlisted_collision_refuted.
